@@ -357,7 +357,8 @@ impl Directive {
                 }
             }
             Directive::Else => {
-                next_item = NextItem::EndIf;
+                // only reached while assembling the arm before it
+                next_item = NextItem::EndChain;
             }
             Directive::Endif => {}
             Directive::Exit => {
